@@ -2451,7 +2451,10 @@ async fn handle_stun_request(
             (local.username_fragment.clone(), local.password.clone())
         };
         let for_us = match msg.username.as_deref() {
-            Some(username) => username.split(':').next() == Some(local_ufrag.as_str()),
+            // "<our ufrag>:<peer's ufrag>" - a bare fragment is not an ICE username.
+            Some(username) => {
+                username.split_once(':').map(|(ours, _)| ours) == Some(local_ufrag.as_str())
+            }
             None => false,
         };
         if !for_us || !msg.has_valid_integrity(local_password.as_bytes()) {
